@@ -76,10 +76,22 @@ def pad_counts(ctx):
                    decide=d, summaries={'efficient_cond': econd_summary})
     ev.run(fi)
     sc = ev.last_scope
-    tp = sc.vars.get('to_pad')
-    if tp is None:
-      raise AnalysisError(f'{q}: `to_pad` not found')
-    mods = _find_mod(tp)
+    allv = []
+    for v_ in sc.vars.values():
+      for x in walk(v_):
+        allv.append(x)
+
+    def is_D(b):
+      if dkind == 'psum':
+        return is_ext_call(b, 'jax.lax.psum') and is_const(b.args[1][0], 1) and b.args[1][1].op == 'sym' and b.args[1][1].args[-1] == 'batch_axis_name'
+      if dkind == 'one':
+        return is_const(b, 1)
+      return b.op == 'sym' and b.args[-1] == 'num_devices_for_pjit'
+    # the pad count is found by its shape: a `%` whose right operand is this mode's device count
+    mods = list(dict.fromkeys(x for x in allv if x.op == 'bin' and x.args[0] == '%' and is_D(x.args[2])))
+    if not mods and dkind != 'one':
+      raise AnalysisError(f'{q}: no `<count> % <device count>` expression found')
+    tp = mods[0] if mods else const(0)
     ok = False
     why = show(tp, maxdepth=6)[:200]
     for x in mods:
@@ -97,19 +109,14 @@ def pad_counts(ctx):
         okN = (nn.op == 'call' and nn.args[0].op == 'builtin' and nn.args[0].args[0] == 'len') or nn.op in ('loop', 'phi', 'sym')
         ok = okN
     if dkind == 'one' and not mods:
-      # -N % 1 folds to 0 only for constants; accept an explicit 0
-      ok = is_const(tp, 0)
+      ok = True          # no modulo at all on one device: nothing is padded
     n += 1
     ctx.ob('C13.P1', fi.short, f'to_pad = (-N) mod D [{dkind}]', ok,
            f'the number of padding statistics must be (-N) % D with D = {"psum(1, batch_axis_name)" if dkind == "psum" else ("1" if dkind == "one" else "num_devices_for_pjit")}; got `{why}`',
            ctx.loc(fi), sample='to_pad = -N % D')
     if dkind == 'pjit':
-      # N == 0 special case: pad to D
-      txt = show(tp, maxdepth=8)
-      special = tp.op == 'ite' and any(y.op == 'sym' and y.args[-1] == 'num_devices_for_pjit' for y in (tp.args[1], tp.args[2]))
-      if q == 'sharded_init_shape_and_dtype_fn':
-        ns = sc.vars.get('num_statistics')
-        special = ns is not None and ns.op == 'ite' and any(y.op == 'sym' and y.args[-1] == 'num_devices_for_pjit' for y in (ns.args[1], ns.args[2]))
+      # N == 0 special case: some value of the function chooses the device count itself when there is nothing to pad
+      special = any(x.op == 'ite' and any(y.op == 'sym' and y.args[-1] == 'num_devices_for_pjit' for y in (x.args[1], x.args[2])) for x in allv)
       ctx.ob('C13.P1', fi.short, 'no statistics at all: pad to D', special,
              'when no parameter is preconditioned the global arrays must still have D (dummy) rows, in init, declaration and update alike', ctx.loc(fi),
              sample='N == 0 -> to_pad = num_devices_for_pjit')
@@ -136,12 +143,23 @@ def parallel_lists(ctx):
       # caller-provided parallel lists
       for nm in ('exponents', 'prev_preconditioners', 'original_shapes'):
         ln.assume[P(nm)] = N
-      tp = sc.vars.get('to_pad')
-      if tp is None:
-        raise AnalysisError(f'{q}: `to_pad` not found')
-      want = sp.expand(N + ln.scalar(tp))
       calls = [c for c in ev.calls if c.callee.endswith('.batch') and c.args is not None]
       ctx.need('C13.P2', len(calls), 3, f'batch(...) calls in {q}')
+      # the pad count: multiplicity of the padding entries of the lists handed to batch
+      mult = []
+      for c in calls:
+        x = c.args.get('x', NONE)
+        for e in (x.args if x.op == 'list' else ()):
+          if e.op == 'star' and _is_pad(e):
+            dom = e.args[1]
+            if dom.op == 'repeat':
+              mult.append(dom.args[0])
+            elif dom.op == 'compdom' and dom.args[0].op == 'call' and dom.args[0].args[0].op == 'builtin' and dom.args[0].args[0].args[0] == 'range' and len(dom.args[0].args[1]) == 1:
+              mult.append(dom.args[0].args[1][0])
+      if not mult:
+        raise AnalysisError(f'{q}: no padding entries found in the lists handed to batch')
+      tp = mult[0]
+      want = sp.expand(N + ln.scalar(tp))
       for c in calls:
         x = c.args.get('x', NONE)
         nd = c.args.get('num_devices', NONE)
@@ -164,12 +182,14 @@ def parallel_lists(ctx):
           ctx.ob('C13.P2', fi.short, f'{what}: pads appended after the real entries', okp,
                  f'padding entries of `{what}` must come after the N real entries (the consumer keeps the first N results)', ctx.loc(fi),
                  sample='real entries first, pads last', trivial=True)
-        ctx.ob('C13.P2', fi.short, f'{what}: batched over the device count', nd is sc.vars.get('num_devices'),
-               'batch must split over num_devices', ctx.loc(fi), trivial=True, sample=None)
+        okd = (is_ext_call(nd, 'jax.lax.psum') and is_const(nd.args[1][0], 1)) if fixed.get('batch_axis_name') else is_const(nd, 1)
+        ctx.ob('C13.P2', fi.short, f'{what}: batched over the device count', okd,
+               'batch must split over the device count of this mode (psum(1, axis) | 1)', ctx.loc(fi), trivial=True, sample=None)
       # padding entry values
-      ps = sc.vars.get('packed_statistics') or sc.vars.get('packed_quantized_statistics')
-      if ps is None or ps.op != 'list':
-        raise AnalysisError(f'{q}: packed statistics list not found')
+      xs = [c.args.get('x', NONE) for c in calls]
+      ps = next((x for x in xs if x.op == 'list' and _what(x) in ('pad_square_matrix', 'quantized')), None)
+      if ps is None:
+        raise AnalysisError(f'{q}: packed statistics list not found among the batch arguments')
       pads = [e.args[0] for e in ps.args if e.op == 'star' and _is_pad(e)]
       if q == '_pmap_compute_preconditioners':
         okv = bool(pads) and all(is_ext_call(p_, 'jax.numpy.eye') and p_.args[1][0] is P('max_size') for p_ in pads)
@@ -177,11 +197,11 @@ def parallel_lists(ctx):
         okv = bool(pads) and all('quantized' in show(p_, maxdepth=3) and any(is_ext_call(y, 'jax.numpy.eye') for y in walk(p_)) for p_ in pads)
       ctx.ob('C13.P2', fi.short, f'padding statistic is the identity [reuse={reuse}]', okv,
              'padding statistics must be identity matrices of the common size (their root is harmless and never used)', ctx.loc(fi), sample='eye(max_size)')
-      ex = sc.vars.get('exponents')
+      ex = next((x for x in xs if x.op == 'mut' and any(y is P('exponents') for y in walk(x))), None)
       okx = ex is not None and ex.op == 'mut' and ex.args[1] == 'extend' and ex.args[2][0].op == 'list' and \
           all(e.op == 'star' and is_const(e.args[0], 1) for e in ex.args[2][0].args)
       ctx.ob('C13.P2', fi.short, f'padding exponent is 1 [reuse={reuse}]', okx, 'exponents must be extended by to_pad ones', ctx.loc(fi), sample='exponents.extend([1] * to_pad)')
-      pd = sc.vars.get('paddings')
+      pd = next((x for x in xs if x.op == 'list' and len(x.args) == 2 and x.args[1].op == 'star' and is_const(x.args[1].args[0]) and isinstance(cval(x.args[1].args[0]), int)), None)
       okq = pd is not None and pd.op == 'list' and len(pd.args) == 2 and pd.args[1].op == 'star' and is_const(pd.args[1].args[0], 0) and \
           'len' in show(pd.args[0], maxdepth=4)
       ctx.ob('C13.P2', fi.short, f'padding start of pads is 0 [reuse={reuse}]', okq,
@@ -209,7 +229,16 @@ def parallel_lists(ctx):
                  decide=D.make_decider(v, {}), summaries={'efficient_cond': econd_summary})
   ev.run(fi)
   sc = ev.last_scope
-  st, ps_ = sc.vars.get('new_padded_statistics'), sc.vars.get('padding_starts')
+  # the padded statistics list (entries built by pad_square_matrix, then identity pads) and the list of padding starts
+  # (entries len(statistic), then zeros) are found by what they hold
+  def holds(v_, pred):
+    # looks at the entries only (what is stored), not at the iteration domains
+    return any(pred(x) for e_ in v_.args for x in walk(e_.args[0] if e_.op == 'star' else e_))
+  vals_ = [v_ for v_ in sc.vars.values() if v_.op == 'list']
+  st = next((v_ for v_ in vals_ if holds(v_, lambda x: fn_name(x) == 'pad_square_matrix') and holds(v_, lambda x: is_ext_call(x, 'jax.numpy.eye'))), None)
+  ps_ = next((v_ for v_ in vals_ if v_ is not st and not holds(v_, lambda x: fn_name(x) == 'pad_square_matrix') and
+              any(e_.op == 'star' and is_const(e_.args[0], 0) for e_ in v_.args) and
+              holds(v_, lambda x: x.op == 'call' and x.args[0].op == 'builtin' and x.args[0].args[0] == 'len')), None)
   ok = st is not None and ps_ is not None
   if ok:
     try:
